@@ -256,8 +256,10 @@ class LaplaceFolded(Laplace, TruncationAndFoldingMixin):
 
         shape = self.sensitivity / (self.epsilon - np.log(1 - self.delta))
 
-        bias = shape * (np.exp((self.lower + self.upper - 2 * value) / shape) - 1)
-        bias /= np.exp((self.lower - value) / shape) + np.exp((self.upper - value) / shape)
+        # Numerator and denominator are scaled by exp(-(upper - value) / shape), so that every exponent is non-positive
+        # for a value inside the domain and wide or infinite domains do not overflow to inf / inf
+        bias = shape * (np.exp((self.lower - value) / shape) - np.exp((value - self.upper) / shape))
+        bias /= np.exp((self.lower - self.upper) / shape) + 1
 
         return bias
 
